@@ -320,8 +320,26 @@ func runC46(op string) string {
 			}
 			signer := u.cold[ci]
 			cIssue, cPeriod, cVk := issue, ocp, kesVk
+			// the message's own counter / period: genuine, or changed in the high bits only
+			// (the cold signature stays the one over the genuine values)
+			msgIssue, msgPeriod := issue, ocp
+			bump := map[string]uint64{"issueHi32": 1 << 32, "issueHi40": 1 << 40, "issueHi63": 1 << 63,
+				"periodHi32": 1 << 32, "periodHi40": 1 << 40, "periodHi63": 1 << 63}[cm]
+			if bump != 0 {
+				if strings.HasPrefix(cm, "issue") {
+					if issue > ^uint64(0)-bump {
+						return "bad-op"
+					}
+					msgIssue += bump
+				} else {
+					if ocp > ^uint64(0)-bump {
+						return "bad-op"
+					}
+					msgPeriod += bump
+				}
+			}
 			switch cm {
-			case "ok", "junk", "short", "cklen":
+			case "ok", "junk", "short", "cklen", "issueHi32", "issueHi40", "issueHi63", "periodHi32", "periodHi40", "periodHi63":
 			case "other":
 				signer = u.cold[(ci+1)%c46Pools]
 			case "issue":
@@ -349,7 +367,7 @@ func runC46(op string) string {
 				coldKey = coldKey[:31]
 			}
 			msg.OperationalCertificate = pcommon.OperationalCertificate{
-				KESVerificationKey: kesVk, IssueNumber: issue, KESPeriod: ocp, ColdSignature: coldSig,
+				KESVerificationKey: kesVk, IssueNumber: msgIssue, KESPeriod: msgPeriod, ColdSignature: coldSig,
 			}
 			msg.ColdVerificationKey = coldKey
 			// --- KES signature over the wrapped payload
@@ -414,7 +432,8 @@ func runC46(op string) string {
 func genC46(r *Rand, n int, tier string, emit func(string)) {
 	universes := []string{hexs(r.Bytes(8)), hexs(r.Bytes(8))}
 	idm := []string{"other", "junk", "empty", "short", "alias"}
-	cmm := []string{"other", "issue", "period", "kes", "junk", "short", "cklen"}
+	cmm := []string{"other", "issue", "period", "kes", "junk", "short", "cklen",
+		"issueHi32", "issueHi40", "issueHi63", "periodHi32", "periodHi40", "periodHi63", "issueHi32", "periodHi32"}
 	kmm := []string{"otherkey", "otherpayload", "junk", "short", "vklen"}
 	for i := 0; i < n; i++ {
 		if r.Chance(1, 10) {
